@@ -64,6 +64,7 @@ public:
     struct Write { unsigned chan; unsigned fnum, block; uint8_t dtfm[4]; bool haveDtfm; };
 
     // decode the frequency writes (A4 then A0, followed by key-on) of the tap records of one call
+    static Run *&logRun() { static Run *r = NULL; return r; }   // every decoded frequency write goes into the run's event log (determinism gates compare it)
     static std::vector<Write> decode(const void *synth)
     {
         std::vector<Write> out; std::map<unsigned, unsigned> a4; std::map<unsigned, std::vector<std::pair<unsigned, unsigned> > > dt;
@@ -78,6 +79,7 @@ public:
                 std::vector<std::pair<unsigned, unsigned> > &d = dt[c];
                 if(d.size() >= 4) { w.haveDtfm = true; for(size_t q = d.size() - 4; q < d.size(); ++q) w.dtfm[d[q].first & 3] = (uint8_t)d[q].second; }
                 d.clear(); out.push_back(w);
+                if(logRun()) { logRun()->log.add(w.chan); logRun()->log.add(w.block); logRun()->log.add(w.fnum); }
             }
         }
         return out;
@@ -87,6 +89,7 @@ public:
     {
         SimFsScope fs; g_fs.reset();
         tapInstall(true);
+        logRun() = &run;
         const int family = (int)p.get("family", 0);
         const double clock = family ? 7987200.0 : 7670454.0;
         Rng br(mix64((uint64_t)p.get("bankseed"), 0xC10)); BankGenOpts bo; GenWopn gw = genWopn(br, bo);
